@@ -4,7 +4,9 @@ number of block evaluations; one that settles is not, and an idle simulator mean
 consistent network.
 
 One run = one random boolean network (Not / Xor / And / identity FuncBlock over 1-3 driver
-controlled Inputs) executed by the real simulator on the virtual loop:
+controlled Inputs; in 30% of the runs also constant inputs - literals and edzed.Const objects -
+including blocks fed by constants only, which no other block ever triggers) executed by the
+real simulator on the virtual loop:
   * 'cyclic'  : 1-3 combinational feedback edges (self loops, rings, nested loops),
   * 'evloop'  : feedback closed through CBlock.on_output -> Input 'put' events (plain,
                 negated by an event filter, forwarded through a second Input); such loops go
@@ -18,8 +20,8 @@ hash_salt (iteration order of the simulator's set of blocks to evaluate) is part
 Oracle (reference: checks/cyclib.py, written from the documentation):
   after start-up and after every burst the loop is run until it is quiescent (virtual time
   advances), then
-  (a) simulation alive and idle  => every CBlock output equals its documented function of the
-      current input values and every event-fed Input holds its sender's (filtered) output;
+  (a) simulation alive and idle  => every CBlock has an output (not UNDEF) that equals its
+      documented function of the current input values (constants are fixed values) and every event-fed Input holds its sender's (filtered) output;
       if brute force over all <= 2^N assignments finds *no* consistent assignment for the
       current source values the more specific 'instability-not-detected' is reported;
   (b) simulation ended => the error is the 'instability' EdzedCircuitError; anything else is
@@ -96,7 +98,8 @@ MARGIN = 2              # "several times through the whole circuit": at least tw
 WATCHDOG_PER_BLOCK = 200
 MAX_STEPS = 3_000      # a normal run takes < 100 loop callbacks
 RULE = ("one run = one random network of 1-9 (thorough: -11) Not/Xor/And/identity blocks over 1-3 "
-        "Inputs: 38% with 1-3 combinational feedback edges, 30% with feedback closed through "
+        "Inputs (30% of the runs add constant inputs, literal or edzed.Const, and blocks fed by "
+        "constants only): 38% with 1-3 combinational feedback edges, 30% with feedback closed through "
         "on_output->Input 'put' events (plain / negating filter / two-Input chain), 32% acyclic "
         "with reconvergent fan-out and forward event edges; creation order shuffled, hash_salt "
         "drawn per run; then 1-12 bursts of external puts (single toggle, several sources, "
@@ -111,7 +114,8 @@ REACH_EXPECTED = [
     'sat_event_loop_idle', 'event_hop_in_cycle', 'negating_filter_in_cycle',
     'acyclic_burst_within_bound', 'acyclic_glitch_within_bound', 'acyclic_evals_above_nblocks',
     'acyclic_event_edge_burst', 'acyclic_over_bound', 'multi_change_burst',
-    'stable_then_unstable_history',
+    'stable_then_unstable_history', 'const_input_idle', 'const_only_block_idle',
+    'const_only_block_in_cycle',
 ]
 ASSUMPTIONS = [
     "boolean values only; block semantics taken from the documentation: Not, And (all), Xor "
@@ -151,6 +155,15 @@ def _is_instability(err):
     return isinstance(err, edzed.EdzedCircuitError) and 'instability' in str(err).lower()
 
 
+def _real_input(i):
+    # literal constants are passed as they are (edzed wraps them), '#C.' as explicit Const
+    if i in ('#T', '#F'):
+        return cyclib.CONST_NAMES[i]
+    if cyclib.is_const(i):
+        return edzed.Const(cyclib.CONST_NAMES[i])
+    return i
+
+
 def build(plan, net):
     """Create the real circuit. Returns dicts of the created blocks."""
     blk = {}
@@ -177,7 +190,7 @@ def build(plan, net):
                 b = edzed.Xor(name, **kw)
             else:
                 b = edzed.FuncBlock(name, func=_ident, **kw)
-            b.connect(*ins)
+            b.connect(*[_real_input(i) for i in ins])
             blk[name] = b
     except PlanError:
         raise
@@ -237,7 +250,8 @@ def execute(plan, trace=False):
             bad = []
             for name, op, ins in net.blocks:
                 out = blk[name].output
-                vals = [blk[i].output for i in ins]
+                vals = [cyclib.CONST_NAMES[i] if cyclib.is_const(i) else blk[i].output
+                        for i in ins]
                 if out is edzed.UNDEF or any(v is edzed.UNDEF for v in vals):
                     bad.append(f"{name}: output {canon(out)} inputs {canon(vals)}")
                     continue
@@ -285,6 +299,10 @@ def execute(plan, trace=False):
                 run.beh(sat is not None, 'idle', evals)
                 if ok:
                     st['was_idle_ok'] = True
+                    if net.has_const:
+                        run.fired('reach:const_input_idle')
+                    if net.const_only:
+                        run.fired('reach:const_only_block_idle')
                     if not net.acyclic:
                         run.fired('reach:sat_cyclic_idle')
                         if net.acyclic_direct:
@@ -323,6 +341,8 @@ def execute(plan, trace=False):
             per_block = evals / nall
             run.fired('instability_evals_le_4N' if per_block <= 4 else
                       'instability_evals_le_40N' if per_block <= 40 else 'instability_evals_gt_40N')
+            if net.const_only and not net.acyclic:
+                run.fired('reach:const_only_block_in_cycle')
             if sat is None:
                 run.fired('reach:unsat_detected')
                 run.fired('reach:unsat_detected_at_start' if initial
